@@ -399,6 +399,12 @@ func handleReuse(reuse Tensor, expectedShape Shape, safe bool) (retVal *Dense, e
 		if !safe {
 			return
 		}
+		// a destination that already has the expected shape but is not laid out plainly (a non-contiguous view, a
+		// lazily transposed tensor) cannot be handed to BLAS, and must not be re-laid-out either (a view would then
+		// cover elements of its parent): the product is computed into a fresh tensor and copied in by handleIncr
+		if sameShape(retVal.Shape(), expectedShape) && (retVal.RequiresIterator() || !retVal.old.IsZero()) {
+			return nil, nil
+		}
 		if err = reuseCheckShape(retVal, expectedShape); err != nil {
 			err = errors.Wrapf(err, "Unable to process reuse *Dense Tensor. Shape error.")
 			return
@@ -444,5 +450,27 @@ func handleIncr(res *Dense, reuse, incr Tensor, expectedShape Shape) (retVal *De
 		return
 	}
 
+	// the product was computed into a fresh tensor because the reuse tensor is not laid out plainly (see handleReuse):
+	// copy it in through the reuse tensor's own access pattern
+	if reuseD, ok := reuse.(*Dense); ok && reuseD != res && sameShape(reuseD.Shape(), res.Shape()) {
+		if _, err = copyDenseIter(reuseD, res, nil, nil); err != nil {
+			return nil, err
+		}
+		ReturnTensor(res)
+		return reuseD, nil
+	}
 	return res, nil
+}
+
+// sameShape reports whether two shapes are identical (Shape.Eq treats the vector shapes (n), (n,1) and (1,n) alike)
+func sameShape(a, b Shape) bool {
+	if len(a) != len(b) {
+		return false
+	}
+	for i := range a {
+		if a[i] != b[i] {
+			return false
+		}
+	}
+	return true
 }
